@@ -1,4 +1,5 @@
-import CentrifugeVerif.Proofs.SubProto
+import CentrifugeVerif.Proofs.SubProtoInv
+import CentrifugeVerif.Model.SubProtoSpec
 /-!
 # C04 — publication routing matches subscription state
 
@@ -6,6 +7,19 @@ Theorems over the labelled transition system of `Model/SubProto.lean`; `Reachabl
 every finite sequence of labels from the connected initial state, i.e. over every number of
 subscribe / unsubscribe / close operations, every interleaving of their atomic steps, every failure
 outcome and every firing of the wait-gate timeout.
+
+Proved here (all labels):
+* `at_most_once_routing`, `gauge_counts_routing_entries` — the hub is a map: at most one routing
+  entry per (channel, connection), and the subscriptions gauge counts exactly these entries;
+* `closed_no_new_subscription` — once the connection is closed no step makes it report a channel it
+  did not report before (the commit point checks the status under the same lock that close takes);
+* `generations_nonzero` — every `c.channels` entry carries a real generation, so the "any generation"
+  value 0 of `removeSub` is never what a generation-matched removal is called with.
+
+NOT proved (stated in `settled_agreement` below as a comment): the full agreement of routing table and
+reported channels at settled states.  The bounded explorer of the driver finds no violating
+interleaving for the operation sets listed in `props/C04/corpus.ops` when the wait-gate timeout does
+not fire; with the timeout the model has violating executions (see `Props/C05.lean`).
 -/
 namespace CentrifugeVerif.SubProto
 
@@ -17,5 +31,36 @@ theorem at_most_once_routing (s : State) (h : Reachable s) : (s.hub.map (·.1)).
 /-- the subscriptions-inflight gauge is in lockstep with the routing table in every reachable state -/
 theorem gauge_counts_routing_entries (s : State) (h : Reachable s) : s.subGauge = s.hub.length :=
   (reachable_struct s h).gauge
+
+theorem reachable_ghost (s : State) (h : Reachable s) : Ghost s :=
+  reachable_invariant Ghost Ghost.init next_ghost s h
+
+theorem generations_nonzero (s : State) (h : Reachable s) (ch : Chan) (e : Entry)
+    (he : aget s.channels ch = some e) : e.gen ≠ 0 :=
+  (reachable_ghost s h).entGen ch e he
+
+/-- After `close()` marked the connection closed, no step of any operation makes the connection
+report a channel as subscribed that it did not report before that step. -/
+theorem closed_no_new_subscription (s s' : State) (l : Label) (hc : s.status = .closed)
+    (hn : next s l = some s') (ch : Chan) (hr : reports s' ch = true) : reports s ch = true := by
+  unfold reports at hr ⊢
+  cases he : aget s'.channels ch with
+  | none => simp [he] at hr
+  | some e =>
+    simp only [he] at hr
+    obtain ⟨e0, h0, hs0⟩ := next_closed_reports s s' l hc hn ch e he hr
+    simp [h0, hs0]
+
+/-
+`settled_agreement` (full statement, not proved):
+  Reachable s → s.settled → c04Ok s = true
+i.e. when no operation is in flight the routing entries are exactly the reported channels, one each,
+with the reported generation.
+-/
+
+/-! Non-vacuity: a reachable settled state with one reported channel and its routing entry. -/
+example : (run State.init [.spawn .csub 0 ⟨true, true⟩, .step 0 .ok, .step 0 .ok, .step 0 .ok, .step 0 .ok,
+    .step 0 .ok, .step 0 .ok, .step 0 .ok, .step 0 .ok, .step 0 .ok, .step 0 .ok, .step 0 .ok]).map
+    (fun s => (settledB s, reports s 0, aget s.hub 0, c04Ok s)) = some (true, true, some 1, true) := by decide
 
 end CentrifugeVerif.SubProto
